@@ -132,14 +132,27 @@ func (s *Server) serve(ctx context.Context, listener net.Listener, handler Modbu
 	s.listener = listener
 	l := onceCloseListener{Listener: listener}
 	defer l.Close()
+	// Accept does not observe the context: close the listener when the context ends
+	stop := context.AfterFunc(ctx, func() { _ = l.Close() })
+	defer stop()
 
 	for {
 		netConn, err := l.Accept()
 		if err != nil {
-			if s.isShutdown.Load() {
+			if s.isShutdown.Load() || ctx.Err() != nil {
 				return ErrServerClosed
 			}
 			return err
+		}
+
+		select {
+		case <-ctx.Done():
+			// do not leave behind a connection that nobody serves or closes
+			if err := netConn.Close(); err != nil {
+				onErrorFunc(fmt.Errorf("connection.close error, err: %w", err))
+			}
+			return ErrServerClosed
+		default:
 		}
 
 		if s.OnAcceptConnFunc != nil {
@@ -149,12 +162,6 @@ func (s *Server) serve(ctx context.Context, listener net.Listener, handler Modbu
 				}
 				continue
 			}
-		}
-
-		select {
-		case <-ctx.Done():
-			return ErrServerClosed
-		default:
 		}
 
 		cCtx := context.WithValue(ctx, ContextRemoteAddr{}, netConn.RemoteAddr())
